@@ -95,27 +95,35 @@ func ProduceChain(ctx context.Context, spec ChainSpec, keys Keys) (*Produced, er
 	if tip != spec.Initial+uint64(len(spec.Blocks)) {
 		return nil, fmt.Errorf("aggregator stopped at %d, expected %d", tip, spec.Initial+uint64(len(spec.Blocks)))
 	}
-	// genuine blobs: one submission per stream, everything accepted
-	if err := n.M.VerifSubmitHeadersOnce(ctx); err != nil {
-		return nil, fmt.Errorf("submit headers: %w", err)
+	// genuine blobs: submission iterations until nothing is pending (everything is accepted); the blobs are mapped to
+	// block heights by decoding them, not by their position
+	hdrBlob, dataBlob := map[uint64][]byte{}, map[uint64][]byte{}
+	for it := 0; it < 64; it++ {
+		if err := n.M.VerifSubmitHeadersOnce(ctx); err != nil {
+			return nil, fmt.Errorf("submit headers: %w", err)
+		}
+		if err := n.M.VerifSubmitDataOnce(ctx); err != nil {
+			return nil, fmt.Errorf("submit data: %w", err)
+		}
+		if _, _, ph, pd := n.M.VerifWatermarks(); ph == 0 && pd == 0 {
+			break
+		}
 	}
-	nHeaderCalls := len(da.Calls())
-	if err := n.M.VerifSubmitDataOnce(ctx); err != nil {
-		return nil, fmt.Errorf("submit data: %w", err)
-	}
-	var hdrBlobs, dataBlobs [][]byte
-	for i, c := range da.Calls() {
+	for _, c := range da.Calls() {
 		if c.Kind != "submit" {
 			continue
 		}
-		if i < nHeaderCalls {
-			hdrBlobs = append(hdrBlobs, c.Blobs...)
-		} else {
-			dataBlobs = append(dataBlobs, c.Blobs...)
+		for _, b := range c.Blobs {
+			if h, isData, ok := DecodeBlobHeight(b); ok {
+				if isData {
+					dataBlob[h] = b
+				} else {
+					hdrBlob[h] = b
+				}
+			}
 		}
 	}
 	root := InitRoot(n.Genesis.ChainID, spec.Initial)
-	di := 0
 	for h := spec.Initial; h <= tip; h++ {
 		hdr, data, err := n.Store.GetBlockData(ctx, h)
 		if err != nil {
@@ -140,17 +148,15 @@ func ProduceChain(ctx context.Context, spec ChainSpec, keys Keys) (*Produced, er
 		p.HeaderHash = append(p.HeaderHash, hdr.Hash())
 		p.Txs = append(p.Txs, txs)
 		p.Roots = append(p.Roots, root)
-		idx := int(h - spec.Initial)
-		if idx >= len(hdrBlobs) {
-			return nil, fmt.Errorf("no header blob for height %d (%d blobs submitted)", h, len(hdrBlobs))
+		if hdrBlob[h] == nil {
+			return nil, fmt.Errorf("no header blob for height %d was submitted", h)
 		}
-		p.HeaderBlob = append(p.HeaderBlob, hdrBlobs[idx])
+		p.HeaderBlob = append(p.HeaderBlob, hdrBlob[h])
 		if len(txs) > 0 {
-			if di >= len(dataBlobs) {
-				return nil, fmt.Errorf("no data blob for height %d", h)
+			if dataBlob[h] == nil {
+				return nil, fmt.Errorf("no data blob for height %d was submitted", h)
 			}
-			p.DataBlob = append(p.DataBlob, dataBlobs[di])
-			di++
+			p.DataBlob = append(p.DataBlob, dataBlob[h])
 		} else {
 			p.DataBlob = append(p.DataBlob, nil)
 		}
